@@ -13,8 +13,8 @@ import traceback
 
 VERIF_DIR = os.path.dirname(os.path.dirname(os.path.abspath(__file__)))
 REPO = os.environ.get("VERIF_REPO", "/repo")
-EVIDENCE_DIR = os.path.join(VERIF_DIR, "evidence")
-REPLAY_DIR = os.path.join(VERIF_DIR, "replays")
+EVIDENCE_DIR = os.environ.get("VERIF_EVIDENCE_DIR") or os.path.join(VERIF_DIR, "evidence")
+REPLAY_DIR = os.path.join(os.environ["VERIF_EVIDENCE_DIR"], "replays") if os.environ.get("VERIF_EVIDENCE_DIR") else os.path.join(VERIF_DIR, "replays")
 CORPUS_DIR = os.path.join(VERIF_DIR, "corpus")
 KNOWN_FILE = os.path.join(VERIF_DIR, "KNOWN_FINDINGS.txt")
 CEIL = 2**32 - 1
@@ -337,7 +337,7 @@ def write_evidence(pid, tier, seed, rec, wall, rule, assumptions, n_viol, extra=
     }
     # minimal self-validation (jsonschema is not installed in /venv)
     assert ev["tier"] in ("quick", "thorough")
-    if cov["evaluations"] < 1 or cov["distinct_nontrivial"] < 2 or not cov["samples"]:
+    if n_viol == 0 and (cov["evaluations"] < 1 or cov["distinct_nontrivial"] < 2 or not cov["samples"]):
         raise HarnessError(
             f"evidence for {pid} would be invalid/vacuous: evaluations={cov['evaluations']} "
             f"distinct_nontrivial={cov['distinct_nontrivial']} samples={len(cov['samples'])}"
